@@ -638,8 +638,14 @@ namespace ValueFlow
                 Value v(val);
                 if (parent == tok->previous()) {
                     if (v.isIntValue() || v.isSymbolicValue()) {
+                        if (v.intvalue == LLONG_MAX)
+                            // Value can't be incremented
+                            continue;
                         const ValueType *dst = tok->valueType();
                         if (dst) {
+                            // an unsigned operand wraps around to 0: "never less than or equal to N" does not carry over to the result
+                            if (v.isImpossible() && v.bound == ValueFlow::Value::Bound::Upper && dst->pointer == 0 && dst->sign != ValueType::Sign::SIGNED)
+                                continue;
                             const size_t sz = dst->getSizeOf(settings, ValueType::Accuracy::ExactOrZero, ValueType::SizeOf::Pointer);
                             MathLib::bigint newvalue = ValueFlow::truncateIntValue(v.intvalue + 1, sz, dst->sign);
                             if (v.bound != ValueFlow::Value::Bound::Point) {
@@ -668,8 +674,14 @@ namespace ValueFlow
                 Value v(val);
                 if (parent == tok->previous()) {
                     if (v.isIntValue() || v.isSymbolicValue()) {
+                        if (v.intvalue == LLONG_MIN)
+                            // Value can't be decremented
+                            continue;
                         const ValueType *dst = tok->valueType();
                         if (dst) {
+                            // an unsigned operand wraps around to its maximum: "never greater than or equal to N" does not carry over to the result
+                            if (v.isImpossible() && v.bound == ValueFlow::Value::Bound::Lower && dst->pointer == 0 && dst->sign != ValueType::Sign::SIGNED)
+                                continue;
                             const size_t sz = dst->getSizeOf(settings, ValueType::Accuracy::ExactOrZero, ValueType::SizeOf::Pointer);
                             MathLib::bigint newvalue = ValueFlow::truncateIntValue(v.intvalue - 1, sz, dst->sign);
                             if (v.bound != ValueFlow::Value::Bound::Point) {
